@@ -12,7 +12,7 @@ LEVEL = "fault_enumeration"
 RULE = (
     "for every base blob (quick: SHA512/nonce and SHA256/P-256 in both layouts + one 300-byte plaintext; thorough: 4 hashes x {nonce,DH,P256,P384} x 2 layouts + the long one), exhaustively: "
     "every single-bit flip, every truncation length, deletion of each byte, insertion of 00/FF at each offset, every TLV-header byte and key-identifier header byte replaced by each of "
-    "{00,01,7F,80,81,FF}, and all pairs of flips among {bit 0 of every byte whose flip was harmless} u {first bit of every field}. Each mutated blob is decrypted by the real unprotect API with an offline "
+    "{00,01,7F,80,81,FF}, a blob whose ciphertext is exactly 64 KiB (every bit of its headers and of the first/last bytes of the ciphertext, two bits of every 1021st byte, truncations around 4 KiB/64 KiB) through the sync and the async API, and all pairs of flips among {bit 0 of every byte whose flip was harmless} u {first bit of every field}. Each mutated blob is decrypted by the real unprotect API with an offline "
     "cache holding the right root key (network seams raise). Blobs rejected by the authentication checks are decrypted a second time in the same process (a retry must not succeed). Oracle: original plaintext | any exception | needs-network; different bytes is the violation. Distinct by (blob, mutation); non-trivial = the "
     "mutated bytes differ from the original."
 )
@@ -25,11 +25,15 @@ def worker_init() -> None:
     seams.block_network()
 
 
-def unprotect(base: bm.Base, data: bytes):
+def unprotect(base: bm.Base, data: bytes, api: str = "sync"):
     import dpapi_ng
 
     cache = seams.make_cache(base.rk)
     try:
+        if api == "async":
+            from mc import vloop
+
+            return "ok", vloop.run(dpapi_ng.async_ncrypt_unprotect_secret(data, cache=cache))
         return "ok", dpapi_ng.ncrypt_unprotect_secret(data, cache=cache)
     except seams.NeedsNetwork as e:
         return "net", e
@@ -37,17 +41,17 @@ def unprotect(base: bm.Base, data: bytes):
         return "exc", e
 
 
-def judge(acc, base: bm.Base, label, data: bytes, fm) -> str:
-    st, v = unprotect(base, data)
+def judge(acc, base: bm.Base, label, data: bytes, fm, api: str = "sync") -> str:
+    st, v = unprotect(base, data, api)
     if st == "exc" and type(v).__name__ in ("InvalidTag", "InvalidUnwrap"):
-        # a rejected blob must stay rejected: decrypt it again in the same process (retry / second caller)
-        st2, v2 = unprotect(base, data)
+        # a rejected blob must stay rejected: decrypt it again in the same process (retry / second caller / the other API flavour)
+        st2, v2 = unprotect(base, data, "async" if api == "sync" else "sync")
         if st2 == "ok":
             st, v = st2, v2
     if st == "ok":
         if bytes(v) != base.plaintext:
             off = label[1] // 8 if label[0] in ("flip", "flip2") else (label[1] if len(label) > 1 and isinstance(label[1], int) else 0)
-            acc.violate("different-plaintext", ["mut", base.bid, label], {"field": bm.field_of(fm, off), "returned": bytes(v)[:64].hex(), "original": base.plaintext[:64].hex()}, size=len(repr(label)))
+            acc.violate("different-plaintext", ["mut", base.bid, label, api], {"field": bm.field_of(fm, off), "returned": bytes(v)[:64].hex(), "original": base.plaintext[:64].hex()}, size=len(repr(label)))
             return "DIFFERENT"
         return "same-plaintext"
     if st == "net":
@@ -61,11 +65,55 @@ def shards(tier: str, seed: int):
         for k in KINDS:
             out.append(["simple", b.bid, k])
         out.append(["pairs", b.bid])
+    for lay in ("env", "trail"):
+        for api in ("sync", "async"):
+            out.append(["big", lay, api])
     return out
+
+
+def big_base(seed: int, lay: str) -> bm.Base:
+    """one blob whose ciphertext is exactly 64 KiB (chunk / buffer boundary of any streaming implementation)"""
+    from ref import cms
+
+    d = seams.Drbg(("C04big", seed))
+    rk = seams.make_root(d, "SHA256")
+    pt = d.bytes(65536)
+    blob = cms.ref_encrypt(rk, bm.SID, pt, bm.POS, cek=d.bytes(32), gcm_nonce_=d.bytes(12), key_nonce=d.bytes(32), in_envelope=(lay == "env"))
+    return bm.Base(f"big64k/{lay}", rk, blob, pt)
+
+
+def big_mutations(blob: bytes):
+    n = len(blob)
+    head = n - 65536 - 16
+    byts = sorted(set(list(range(0, min(head + 48, n))) + list(range(head, n, 1021)) + list(range(n - 64, n))))
+    for b in byts:
+        for bit in ((0, 7) if head + 48 <= b < n - 64 else range(8)):
+            yield ["flip", b * 8 + bit], bm.apply_simple(blob, ["flip", b * 8 + bit])
+    for ln in sorted(set(list(range(0, head + 20)) + [head + 4096, head + 65535, head + 65536, head + 65537, n - 17, n - 16, n - 15, n - 1])):
+        if 0 <= ln < n:
+            yield ["trunc", ln], blob[:ln]
 
 
 def run_shard(shard, tier, seed, acc) -> None:
     worker_init()
+    if shard[0] == "big":
+        _, lay, api = shard
+        base = big_base(seed, lay)
+        st, v = unprotect(base, base.blob, api)
+        if st != "ok" or bytes(v) != base.plaintext:
+            acc.violate("big.base-does-not-decrypt", ["big", lay, api], {"outcome": st, "value": repr(v)[:100]})
+            acc.ev()
+            return
+        fm: t.List[t.Any] = []
+        n = 0
+        for label, data in big_mutations(base.blob):
+            oc = judge(acc, base, label, data, fm, api)
+            n += 1
+            acc.outcome("big:" + oc.split(":")[0])
+        acc.ev(n)
+        acc.nt_counted(n)
+        acc.sample({"blob": base.bid, "api": api, "len": len(base.blob), "mutations": n})
+        return
     base = bm.base_by_id(seed, shard[1])
     fm = bm.field_map(base.blob)
     st, v = unprotect(base, base.blob)
@@ -80,7 +128,7 @@ def run_shard(shard, tier, seed, acc) -> None:
         for label, data in bm.simple_mutations(base.blob):
             if label[0] != kind:
                 continue
-            oc = judge(acc, base, label, data, fm)
+            oc = judge(acc, base, label, data, fm, "async" if n % 5 == 4 else "sync")
             n += 1
             acc.outcome(oc)
             if kind == "flip":
@@ -116,10 +164,15 @@ def run_shard(shard, tier, seed, acc) -> None:
 
 def replay(case, seed, acc) -> None:
     worker_init()
-    _, bid, label = case
-    base = bm.base_by_id(seed, bid)
+    _, bid, label = case[:3]
+    api = case[3] if len(case) > 3 else "sync"
     acc.ev()
-    judge(acc, base, label, bm.apply_simple(base.blob, label), bm.field_map(base.blob))
+    if bid.startswith("big64k/"):
+        base = big_base(seed, bid.split("/")[1])
+        judge(acc, base, label, bm.apply_simple(base.blob, label), [], api)
+        return
+    base = bm.base_by_id(seed, bid)
+    judge(acc, base, label, bm.apply_simple(base.blob, label), bm.field_map(base.blob), api)
 
 
 def calibrate() -> None:
